@@ -116,7 +116,8 @@ pub fn gen_dir_name(rng: &mut Rng) -> String {
 }
 
 pub const DIR_NAMES: &[&str] = &[
-    "sub", "lib", "deep", "a b", "lib.sol", "test.t.sol", "z", "0", "\u{e9}t\u{e9}",
+    "sub", "lib", "deep", "a b", "lib.sol", "test.t.sol", "z", "0", "\u{e9}t\u{e9}", ".git", ".hidden",
+    "node_modules", "test", "tests", "mocks", "out", "cache", "Contracts", "SRC",
 ];
 
 #[derive(Clone, Copy, Debug, PartialEq, Eq, Hash, PartialOrd, Ord)]
@@ -187,6 +188,9 @@ pub fn inert_content(fill: InertFill, rng: &mut Rng) -> (Vec<u8>, Fault) {
 
 #[derive(Clone, Debug, Default)]
 pub struct TreeKnobs {
+    /// allow the rare shapes: a directory with more than 256 entries, a chain 8-24 levels deep, a
+    /// very large eligible file
+    pub rare_shapes: bool,
     pub max_dirs: usize,
     pub max_depth: usize,
     pub max_files_per_dir: usize,
@@ -198,6 +202,7 @@ pub struct TreeKnobs {
 impl TreeKnobs {
     pub fn draw(rng: &mut Rng) -> TreeKnobs {
         TreeKnobs {
+            rare_shapes: true,
             max_dirs: rng.range(0, 5),
             max_depth: rng.range(0, 4),
             max_files_per_dir: rng.range(1, 4),
@@ -285,6 +290,49 @@ pub fn gen_tree(
                 world.put_file(&p, text.into_bytes(), Fault::None);
                 info.eligible.push(p);
             }
+        }
+    }
+    if k.rare_shapes {
+        match rng.below(160) {
+            0 => {
+                let n = rng.range(257, 300);
+                let texts: Vec<String> = (0..3).map(|_| screen.gen_text(rng)).collect();
+                let dir = if rng.chance(1, 2) { root.to_string() } else { join(root, "wide") };
+                for i in 0..n {
+                    let p = join(&dir, &format!("f{:03}.sol", i));
+                    if !world.nodes.contains_key(&p) {
+                        world.put_file(&p, texts[i % texts.len()].clone().into_bytes(), Fault::None);
+                        info.eligible.push(p);
+                    }
+                }
+            }
+            1 => {
+                let mut d = root.to_string();
+                for i in 0..rng.range(8, 24) {
+                    d = join(&d, &format!("n{}", i));
+                    if rng.chance(1, 3) {
+                        let p = join(&d, &format!("deep{}.sol", i));
+                        world.put_file(&p, screen.gen_text(rng).into_bytes(), Fault::None);
+                        info.eligible.push(p);
+                    }
+                }
+                let p = join(&d, "bottom.sol");
+                world.put_file(&p, screen.gen_text(rng).into_bytes(), Fault::None);
+                info.eligible.push(p);
+            }
+            2 | 3 => {
+                // a large eligible file (0.3 - 1.5 MB): comment padding around real findings
+                let mut t = screen.gen_text(rng);
+                let pad = "// padding padding padding padding padding padding padding padding padding\n";
+                let reps = rng.range(4_000, 20_000);
+                t.push_str(&pad.repeat(reps));
+                let p = join(root, "big.sol");
+                if !world.nodes.contains_key(&p) && screen.ok(&t) {
+                    world.put_file(&p, t.into_bytes(), Fault::None);
+                    info.eligible.push(p);
+                }
+            }
+            _ => {}
         }
     }
     // top up to the minimum number of eligible files
